@@ -20,7 +20,7 @@ INFO = {
  'C07-B': ('C07', 'a parenthesised prefix as FIRST statement of a block whose first line exceeds the column width', ['C07 quick'], 'panic at every narrow width'),
  'C08-A': ('C08', '`-- stylua: ignore start` / `end` attached to the LAST statement of a block (return/break)', ['C08 quick'], 'patch rebased onto the format_block fix'),
  'C08-B': ('C08', 'single `-- stylua: ignore` in a CRLF file or with trailing blanks after the directive', ['C08 quick'], ''),
- 'C09old-A': ('C09', 'blank lines before an out-of-range sole `return` of a block', [], 'DEAD on the current tree: the guard it removes became redundant through the format_block fix (87c4bbb); kept for the record'),
+ 'C09old-A': ('C09', 'blank lines before an out-of-range sole `return` of a block', [], 'DEAD on the current tree: the guard it removes became redundant through the format_block fix (87c4bbb) and was itself removed by fix e7b14c8, so the patch no longer applies; kept for the record'),
  'C09old-B': ('C09', 'sort_requires + a range with an unsorted require group outside the range', ['C09 quick'], 'patch rebased onto the sort_requires fix; needed F-REQ with sort on in the C09 plan'),
  'C10-A': ('C10', 'CRLF input, one-item-per-line parenthesised list, own-line comment before a comma', ['C10 quick'], ''),
  'C10-B': ('C10', 'file ending in a comment followed by blank lines', ['C10 quick'], ''),
@@ -87,6 +87,30 @@ INFO = {
  'C19r3-B': ('C19', '--num-threads 1: the pool loses its second thread and the output job starves the formatting jobs (deadlock)', ['C19 quick'], 'round 3; needed the scheduler hook to report a deadlock of the program as an observation (exit 96) instead of a machinery error, and a run timeout in E2'),
  'C20r3-A': ('C20', 'plain stdin, no stylua.toml, an .editorconfig key and a conflicting command line flag', ['C20 quick', 'C15 quick'], 'round 3; C15 reported it, C20 only after the flag-over-conflicting-file carriers through stdin were added'),
  'C20r3-B': ('C20', '--search-parent-directories and a malformed stylua.toml in $XDG_CONFIG_HOME / $HOME/.config: silently ignored', ['C20 quick'], 'round 3; missed at first: needed malformed files in every place the search consults'),
+ 'C01r4-A': ('C01', 'Luau interpolated string whose expression is a table in redundant parentheses: `{({ 1 })}` becomes `{{ 1 }}`', ['C01 quick'], 'round 4'),
+ 'C01r4-B': ('C01', 'a `--` comment on the line of a `while` condition with `do` on the next line', ['C01 quick'], 'round 4'),
+ 'C02r4-A': ('C02', 'collapse_simple_statement ConditionalOnly/Always and an `if` body of two or more simple statements: collapsed to the first one', ['C02 quick'], 'round 4'),
+ 'C02r4-B': ('C02', '`(#t) ^ 2`, `(not x) ^ 2`: required parentheses around a non-minus unary base of `^` removed', ['C02 quick', 'C05 quick'], 'round 4'),
+ 'C03r4-A': ('C03', 'a block comment directly after a binary operator (forces the hanging layout): lost', ['C03 quick'], 'round 4'),
+ 'C03r4-B': ('C03', 'Luau, a comment directly after the `...` of a generic type pack parameter: lost', ['C03 quick'], 'round 4'),
+ 'C04r4-A': ('C04', 'a one-character string that is exactly the target quote under ForceDouble / ForceSingle (`\'"\'` -> `"""`)', ['C04 quick'], 'round 4'),
+ 'C04r4-B': ('C04', '`\\z` (or an escaped backslash followed by z) directly followed by a quote, with the string switching to that quote', ['C04 quick'], 'round 4'),
+ 'C05r4-A': ('C05', 'a parenthesised prefix `(e).k` / `(e)(...)` over the column width whose inner expression is a unary or a type assertion (hanging path entered with the wrong context)', ['C05 quick'], 'round 4'),
+ 'C05r4-B': ('C05', 'unary minus on a negated operand inside two or more redundant parentheses: `-((-b))` becomes `--b`', ['C05 quick'], 'round 4'),
+ 'C06r4-A': ('C06', 'a one-line block comment between a value and the following comma in a return / assignment list: multi-line on the first run, collapsed on the second', ['C06 quick'], 'round 4'),
+ 'C06r4-B': ('C06', 'call_parentheses None / NoSingleTable and a single table argument in redundant parentheses: call parentheses only omitted by the second run', ['C06 quick'], 'round 4'),
+ 'C07r4-A': ('C07', 'a table that fits the width with a `--` comment between a value and its separator: assertion in the single-line table path', ['C07 quick'], 'round 4'),
+ 'C07r4-B': ('C07', 'both range bounds given, non-ASCII text, a bound strictly inside a multi-byte character: slice panic', ['C07 quick'], 'round 4; missed at first: needed programs with multi-byte characters x EVERY pair of byte offsets (ranges are byte offsets, the range points were token-aligned)'),
+ 'C08r4-A': ('C08', '`-- stylua: ignore` followed by ANOTHER comment before the node (last comment wins)', ['C08 quick'], 'round 4; missed at first: needed directives followed / preceded by other comments'),
+ 'C08r4-B': ('C08', 'an `ignore start` region whose first statement ends with `;`', ['C08 quick'], 'round 4'),
+ 'C09r4-A': ('C09', 'a range selecting a statement in the plain `else` branch of an `if` that is not wholly inside the range: one indent level too shallow', ['C09 quick'], 'round 4; missed at first: the inside-as-whole-file comparison only looked at top-level statements and not at indentation'),
+ 'C09r4-B': ('C09', 'an out-of-range block statement carrying `-- stylua: ignore`, a range covering statements nested in it: they are formatted', ['C09 quick', 'C08 quick'], 'round 4; missed by C09 at first: needed ignored compound statements in the range space'),
+ 'C10r4-A': ('C10', 'CRLF input, a call with a bare string argument and a `--` comment behind the string (comment moved behind the added parenthesis keeps its CR)', ['C10 quick'], 'round 4'),
+ 'C10r4-B': ('C10', 'line_endings = Windows and a multi-line block comment written purely with LF', ['C10 quick'], 'round 4'),
+ 'C11r4-A': ('C11', 'call_parentheses None / NoSingle* and a single string / table argument inside TWO or more redundant parentheses', ['C11 quick'], 'round 4'),
+ 'C11r4-B': ('C11', 'Luau `type function` under space_after_function_names = Definitions / Calls', ['C11 quick'], 'round 4'),
+ 'C12r4-A': ('C12', 'sort_requires and a require whose call spans several lines directly followed by other requires (group split)', ['C12 quick'], 'round 4'),
+ 'C12r4-B': ('C12', 'sort_requires, an open ignore region whose `ignore end` comment sits directly above a group of two or more unsorted requires', ['C12 quick'], 'round 4; needed ignore regions opening and closing at every pair of positions of three require groups (added on reading the description and before running it; in the thorough tier the two-deviation sequences of F-REQ contain the shape as well)'),
  'OWN-buildB': ('C05', 'default features only (the `#[cfg(not(feature = "luau"))]` branch of the hanging path): a parenthesised prefix expression `(e).k` at a width where it hangs loses its parentheses', ['C05 quick (build B)'], 'my own change, to show that build B sees what build A (all syntaxes) cannot; the repository suite (153 tests, default features) passes with it'),
  'REV-json': ('C18', 'revert of fix b... (JSON diff keeps only the first inserted line)', ['C18 quick'], 'my own fix reverted, to show the check rediscovers the defect'),
  'REV-exitjson': ('C13', 'revert of the JSON-mode parse error exit status fix', ['C13 quick'], 'own fix reverted'),
